@@ -477,8 +477,10 @@ def run_verus(lines, workdir, name, rlimit=30, threads=8, extra=(), wall=None):
     f = os.path.join(workdir, name + '.rs')
     with open(f, 'w') as fh:
         fh.write('\n'.join(l.text for l in lines) + '\n')
-    cmd = ['verus', f, '--output-json', '--time', '--error-format=json', '--multiple-errors', '4',
+    cmd = ['verus', f, '--output-json', '--time', '--error-format=json',
            '--rlimit', str(rlimit), '--num-threads', str(threads), '--no-report-long-running', *extra]
+    if '--multiple-errors' not in extra:
+        cmd += ['--multiple-errors', '4']
     t0 = time.time()
     try:
         # own process group: on a wall-clock timeout the z3 children are killed too (nonlinear queries ignore rlimit)
